@@ -5,6 +5,7 @@ import AnyDB.Model.Rawdb
 import AnyDB.Model.Vec
 import Driver.RawdbProto
 import Driver.VecProto
+import Driver.ComputeProto
 open AnyDB
 
 partial def loopWith {σ : Type} (h : IO.FS.Stream) (out : IO.FS.Stream) (handle : σ → String → σ × String) (s : σ) : IO Unit := do
@@ -20,4 +21,5 @@ def main (args : List String) : IO UInt32 := do
   match args with
   | ["rawdb"] => loopWith stdin stdout RawdbProto.handle Db.init; return 0
   | ["vec"] => loopWith stdin stdout VecProto.handle (VecM.V.init .raw 8 0); return 0
+  | ["compute"] => loopWith stdin stdout ComputeProto.handle { m := "", w := 0, f := 0 }; return 0
   | _ => IO.eprintln "usage: anydb_driver <engine>"; return 2
